@@ -36,6 +36,8 @@ func runC06(c *Ctx) {
 		"C06.b a handler exists for every control function of the vocabulary",
 		"C06.c every erased cell takes the cursor's current background",
 		"C06.d cursor and margin contracts of the motion/positioning functions (symbolic pre/post conditions proved on the code)",
+		"C06.f scroll up/down: every row of the region receives the row n lines away when that row is in the region and is erased (margins, pen background) otherwise; rows outside are untouched (n below and at/above the region height)",
+		"C06.g print blanks, in the pen's style, exactly the columns col+1 .. min(col+w-1, right margin) a wide glyph covers, on the glyph's row",
 	}
 	c.NotDec = []string{"grid contents (graphemes, widths, styles) after each operation; SGR-to-pen mapping (C18); behaviour in the deferred-wrap column other than printing, CR and absolute positioning (exempt by the statement)"}
 	c.Assume = append(c.Assume, "terminal sizes are at least 1x1; contract preconditions state larger minimum sizes where needed", "sequence parameters are non-negative (C05.d)")
@@ -63,6 +65,8 @@ func runC06(c *Ctx) {
 	c06RuleErase(c, e)
 	lap("erase")
 	c06RuleContracts(c, e, tabs)
+	c06RuleScroll(c, e, tabs)
+	c06RulePrint(c, e)
 	lap("contracts")
 	c05Debug(c)
 }
@@ -783,4 +787,1358 @@ func c06RuleContracts(c *Ctx, e *c05Eng, tabs map[string]*c06Table) {
 				strings.Join(miss, ", "), e.showVal(e.valOf(exit, c05Row)), e.showVal(e.valOf(exit, c05Col)), e.showVal(e.valOf(exit, c05Top_)), e.showVal(e.valOf(exit, c05Bot)))
 		}
 	}
+}
+
+// ---------------------------------------------------------------- structured symbolic execution (C06.f, C06.g)
+//
+// A small executor over structured statements (if/else, switch, continue/break/return, simple
+// loops recognised as one effect, calls into the package inlined) on top of the engine's states.
+// It enumerates the feasible outcomes of a statement list together with the grid effects met on
+// the way. Anything it does not understand is recorded in und and makes the rule undecided.
+
+type c06Eff struct {
+	kind string // "copy" (row <- src), "eraseRow" (whole row between the margins, pen background), "blankG", "blankS"
+	row  c05Lin
+	col  c05Lin
+	src  c05Lin
+	pos  token.Pos
+}
+
+type c06Out struct {
+	kind int // 0 falls through, 1 continue, 2 break, 3 return
+	st   *c05State
+	effs []c06Eff
+}
+
+type c06X struct {
+	c     *Ctx
+	e     *c05Eng
+	und   []string
+	depth int
+	bg    *types.Var // vaxis.Style.Background
+	cur   *types.Var // Model.cursor
+	// loopHook gets the first look at every loop statement
+	loopHook func(fr *c05Frame, s ast.Stmt, st *c05State, effs []c06Eff) ([]c06Out, bool)
+}
+
+func (x *c06X) undecided(format string, a ...any) { x.und = append(x.und, fmt.Sprintf(format, a...)) }
+
+func (x *c06X) execList(fr *c05Frame, list []ast.Stmt, st *c05State, effs []c06Eff) []c06Out {
+	cur := []c06Out{{kind: 0, st: st, effs: effs}}
+	for _, s := range list {
+		var next []c06Out
+		for _, o := range cur {
+			if o.kind != 0 {
+				next = append(next, o)
+				continue
+			}
+			next = append(next, x.execStmt(fr, s, o.st, o.effs)...)
+		}
+		cur = next
+		if len(cur) > 64 {
+			x.undecided("too many paths")
+			return nil
+		}
+	}
+	return cur
+}
+
+func c06CopyEffs(e []c06Eff) []c06Eff { return append([]c06Eff{}, e...) }
+
+func (x *c06X) execStmt(fr *c05Frame, s ast.Stmt, st *c05State, effs []c06Eff) []c06Out {
+	e := x.e
+	one := func(k int, st *c05State, effs []c06Eff) []c06Out {
+		if st == nil || st.env == nil {
+			return nil
+		}
+		return []c06Out{{kind: k, st: st, effs: effs}}
+	}
+	switch t := s.(type) {
+	case *ast.EmptyStmt:
+		return one(0, st, effs)
+	case *ast.BlockStmt:
+		return x.execList(fr, t.List, st, effs)
+	case *ast.IfStmt:
+		if t.Init != nil {
+			e.transfer(fr, st, t.Init)
+		}
+		var outs []c06Out
+		if s1 := e.assume(fr, st.clone(), t.Cond, true); s1 != nil {
+			outs = append(outs, x.execList(fr, t.Body.List, s1, c06CopyEffs(effs))...)
+		}
+		if s2 := e.assume(fr, st, t.Cond, false); s2 != nil {
+			if t.Else != nil {
+				outs = append(outs, x.execStmt(fr, t.Else, s2, c06CopyEffs(effs))...)
+			} else {
+				outs = append(outs, c06Out{kind: 0, st: s2, effs: effs})
+			}
+		}
+		return outs
+	case *ast.SwitchStmt:
+		if t.Init != nil {
+			e.transfer(fr, st, t.Init)
+		}
+		var outs []c06Out
+		rem := st
+		var def *ast.CaseClause
+		finish := func(body []ast.Stmt, s1 *c05State) {
+			for _, o := range x.execList(fr, body, s1, c06CopyEffs(effs)) {
+				if o.kind == 2 {
+					o.kind = 0 // break leaves the switch
+				}
+				outs = append(outs, o)
+			}
+			for _, b := range body {
+				if br, ok := b.(*ast.BranchStmt); ok && br.Tok == token.FALLTHROUGH {
+					x.undecided("fallthrough")
+				}
+			}
+		}
+		for _, cl := range t.Body.List {
+			cc := cl.(*ast.CaseClause)
+			if cc.List == nil {
+				def = cc
+				continue
+			}
+			for _, cx := range cc.List {
+				if rem == nil {
+					break
+				}
+				var s1 *c05State
+				if t.Tag != nil {
+					s1 = e.assumeCmp(fr, rem.clone(), t.Tag, token.EQL, cx)
+					rem = e.assumeCmp(fr, rem, t.Tag, token.NEQ, cx)
+				} else {
+					s1 = e.assume(fr, rem.clone(), cx, true)
+					rem = e.assume(fr, rem, cx, false)
+				}
+				if s1 != nil {
+					finish(cc.Body, s1)
+				}
+			}
+		}
+		if rem != nil {
+			if def != nil {
+				finish(def.Body, rem)
+			} else {
+				outs = append(outs, c06Out{kind: 0, st: rem, effs: effs})
+			}
+		}
+		return outs
+	case *ast.BranchStmt:
+		if t.Label != nil {
+			x.undecided("labelled %s", t.Tok)
+			return nil
+		}
+		switch t.Tok {
+		case token.CONTINUE:
+			return one(1, st, effs)
+		case token.BREAK:
+			return one(2, st, effs)
+		}
+		x.undecided("%s statement", t.Tok)
+		return nil
+	case *ast.ReturnStmt:
+		return one(3, st, effs)
+	case *ast.ForStmt, *ast.RangeStmt:
+		if x.loopHook != nil {
+			if outs, ok := x.loopHook(fr, s, st, effs); ok {
+				return outs
+			}
+		}
+		// an inner loop must be "erase row R between the margins"
+		if eff, ok := x.eraseRowLoop(fr, s, st); ok {
+			return one(0, st, append(effs, eff))
+		}
+		x.undecided("inner loop at %s is not recognised as erasing one row between the margins", x.c.P.Pos(s.Pos()))
+		return nil
+	case *ast.ExprStmt:
+		call, ok := unparen(t.X).(*ast.CallExpr)
+		if !ok {
+			return one(0, st, effs)
+		}
+		if id, ok := call.Fun.(*ast.Ident); ok && id.Name == "copy" && len(call.Args) == 2 {
+			if _, isB := fr.info.Uses[id].(*types.Builtin); isB {
+				d, okd := unparen(call.Args[0]).(*ast.IndexExpr)
+				sx, oks := unparen(call.Args[1]).(*ast.IndexExpr)
+				if okd && oks && e.isGrid(fr.info.TypeOf(d.X)) && e.isGrid(fr.info.TypeOf(sx.X)) && e.pathKey(fr, d.X) == e.pathKey(fr, sx.X) && e.pathKey(fr, d.X) == c05Active {
+					return one(0, st, append(effs, c06Eff{kind: "copy", row: e.linOf(fr, st, d.Index), src: e.linOf(fr, st, sx.Index), pos: call.Pos()}))
+				}
+				x.undecided("copy at %s is not a row-to-row copy of the active screen", x.c.P.Pos(call.Pos()))
+				return nil
+			}
+		}
+		if fn := calleeOf(fr.info, call); fn != nil {
+			if cf := x.c.P.FuncOfObj(fn); cf != nil && cf.Pkg == e.pk && cf.Decl.Body != nil {
+				if repoName(fn) == "widgets/term.cell.erase" {
+					x.undecided("single-cell erase outside a row loop at %s", x.c.P.Pos(call.Pos()))
+					return nil
+				}
+				return x.inline(fr, call, cf, st, effs)
+			}
+		}
+		return one(0, st, effs) // calls out of the package (logging) have no grid effect
+	case *ast.AssignStmt, *ast.IncDecStmt, *ast.DeclStmt:
+		if as, ok := t.(*ast.AssignStmt); ok && len(as.Lhs) == 1 && len(as.Rhs) == 1 {
+			if eff, ok := x.blankEffect(fr, as, st); ok {
+				return one(0, st, append(effs, eff...))
+			}
+			// stores into the grid other than recognised effects
+			if ix := c06GridCell(e, fr, as.Lhs[0]); ix != nil {
+				x.undecided("store into the screen at %s is not a recognised effect", x.c.P.Pos(as.Pos()))
+				return nil
+			}
+		}
+		e.transfer(fr, st, s)
+		return one(0, st, effs)
+	}
+	x.undecided("%T at %s", s, x.c.P.Pos(s.Pos()))
+	return nil
+}
+
+// inline executes a package function called on the terminal.
+func (x *c06X) inline(fr *c05Frame, call *ast.CallExpr, cf *FuncInfo, st *c05State, effs []c06Eff) []c06Out {
+	e := x.e
+	if x.depth > 4 {
+		x.undecided("call depth")
+		return nil
+	}
+	nf := e.newFrame(cf, false)
+	if nf.recv == nil {
+		if cf.Decl.Recv != nil {
+			return []c06Out{{kind: 0, st: st, effs: effs}} // method of another type
+		}
+	} else if idx, _ := e.modelParam(cf); idx >= 0 {
+		if idx >= len(call.Args) || e.pathKey(fr, call.Args[idx]) != "@" {
+			x.undecided("helper %s is not called on the terminal", cf.Name)
+			return nil
+		}
+	} else if sel, ok := unparen(call.Fun).(*ast.SelectorExpr); !ok || e.pathKey(fr, sel.X) != "@" {
+		x.undecided("method %s is not called on the terminal", cf.Name)
+		return nil
+	}
+	i := 0
+	for _, f := range cf.Decl.Type.Params.List {
+		for _, nme := range f.Names {
+			if i >= len(call.Args) {
+				break
+			}
+			arg := call.Args[i]
+			i++
+			pobj := nf.info.Defs[nme]
+			if pobj == nil || pobj == nf.recv {
+				continue
+			}
+			if isIntType(pobj.Type()) {
+				pk := fmt.Sprintf("v%p", pobj)
+				e.disp[pk] = nme.Name
+				e.assignLin(st, pk, e.linOf(fr, st, arg))
+			}
+		}
+	}
+	x.depth++
+	outs := x.execList(nf, cf.Decl.Body.List, st, effs)
+	x.depth--
+	for i := range outs {
+		if outs[i].kind == 3 {
+			outs[i].kind = 0
+		} else if outs[i].kind != 0 {
+			x.undecided("break/continue leaves %s", cf.Name)
+		}
+	}
+	return outs
+}
+
+// c06GridCell: the X[r][c] part of an lvalue rooted in a screen, or nil.
+func c06GridCell(e *c05Eng, fr *c05Frame, lhs ast.Expr) *ast.IndexExpr {
+	for cur := unparen(lhs); ; {
+		switch t := cur.(type) {
+		case *ast.SelectorExpr:
+			cur = unparen(t.X)
+			continue
+		case *ast.IndexExpr:
+			if e.isRow(fr.info.TypeOf(t.X)) {
+				return t
+			}
+			return nil
+		}
+		return nil
+	}
+}
+
+// blankEffect recognises  X[r][c].Character.Grapheme = " "  (blankG),  X[r][c].Style = <pen style>  (blankS)
+// and the whole-cell store of a blank in the pen's style (both).
+func (x *c06X) blankEffect(fr *c05Frame, as *ast.AssignStmt, st *c05State) ([]c06Eff, bool) {
+	e := x.e
+	if as.Tok != token.ASSIGN {
+		return nil, false
+	}
+	ix := c06GridCell(e, fr, as.Lhs[0])
+	if ix == nil {
+		return nil, false
+	}
+	rowIx, ok := unparen(ix.X).(*ast.IndexExpr)
+	if !ok || e.pathKey(fr, rowIx.X) != c05Active {
+		return nil, false
+	}
+	mk := func(kind string) c06Eff {
+		return c06Eff{kind: kind, row: e.linOf(fr, st, rowIx.Index), col: e.linOf(fr, st, ix.Index), pos: as.Pos()}
+	}
+	isPenStyle := func(v ast.Expr) bool {
+		sel, ok := unparen(v).(*ast.SelectorExpr)
+		if !ok {
+			return false
+		}
+		s, ok := fr.info.Selections[sel]
+		if !ok || s.Obj().Name() != "Style" || typeName(s.Obj().Type()) != modPath+".Style" || rootObj(fr.info, sel) != fr.recv {
+			return false
+		}
+		for cur := ast.Expr(sel); ; {
+			se, ok := unparen(cur).(*ast.SelectorExpr)
+			if !ok {
+				return false
+			}
+			if s2, ok := fr.info.Selections[se]; ok && s2.Obj() == x.cur {
+				return true
+			}
+			cur = se.X
+		}
+	}
+	isBlank := func(v ast.Expr) bool { sv, ok := constString(fr.info, v); return ok && sv == " " }
+	if sel, ok := unparen(as.Lhs[0]).(*ast.SelectorExpr); ok {
+		s, ok := fr.info.Selections[sel]
+		if !ok {
+			return nil, false
+		}
+		switch {
+		case s.Obj().Name() == "Grapheme" && s.Obj().Pkg() != nil && s.Obj().Pkg().Path() == modPath && isBlank(as.Rhs[0]):
+			return []c06Eff{mk("blankG")}, true
+		case s.Obj().Name() == "Style" && typeName(s.Obj().Type()) == modPath+".Style" && isPenStyle(as.Rhs[0]):
+			return []c06Eff{mk("blankS")}, true
+		}
+		return nil, false
+	}
+	// whole cell: composite literal with Grapheme " " and Style <pen>
+	if cl, ok := unparen(as.Rhs[0]).(*ast.CompositeLit); ok && unparen(as.Lhs[0]) == ast.Expr(ix) {
+		g, sfound := false, false
+		ast.Inspect(cl, func(n ast.Node) bool {
+			if kv, ok := n.(*ast.KeyValueExpr); ok {
+				if id, ok := kv.Key.(*ast.Ident); ok {
+					if id.Name == "Grapheme" && isBlank(kv.Value) {
+						g = true
+					}
+					if id.Name == "Style" && isPenStyle(kv.Value) {
+						sfound = true
+					}
+				}
+			}
+			return true
+		})
+		if g && sfound {
+			return []c06Eff{mk("blankG"), mk("blankS")}, true
+		}
+	}
+	return nil, false
+}
+
+// c06Loop describes a counting loop: variable, direction, and the states around it.
+type c06Loop struct {
+	key  string // engine key of the loop variable
+	obj  types.Object
+	asc  bool
+	body *ast.BlockStmt
+	cond ast.Expr // nil for range loops
+	rng  *ast.RangeStmt
+	init ast.Stmt
+}
+
+// loopShape recognises  for v := I; cond; v += 1|v++|v -= 1|v--  and  for v := range X|n.
+func (x *c06X) loopShape(fr *c05Frame, s ast.Stmt) *c06Loop {
+	e := x.e
+	switch t := s.(type) {
+	case *ast.RangeStmt:
+		id, ok := t.Key.(*ast.Ident)
+		if !ok || t.Value != nil && !isBlankIdent(t.Value) || t.Tok != token.DEFINE {
+			return nil
+		}
+		return &c06Loop{key: e.pathKey(fr, id), obj: fr.info.ObjectOf(id), asc: true, body: t.Body, rng: t}
+	case *ast.ForStmt:
+		as, ok := t.Init.(*ast.AssignStmt)
+		if !ok || len(as.Lhs) != 1 || as.Tok != token.DEFINE || t.Cond == nil || t.Post == nil {
+			return nil
+		}
+		id, ok := as.Lhs[0].(*ast.Ident)
+		if !ok {
+			return nil
+		}
+		obj := fr.info.ObjectOf(id)
+		dir := 0
+		switch p := t.Post.(type) {
+		case *ast.IncDecStmt:
+			if pid, ok := unparen(p.X).(*ast.Ident); ok && fr.info.ObjectOf(pid) == obj {
+				dir = 1
+				if p.Tok == token.DEC {
+					dir = -1
+				}
+			}
+		case *ast.AssignStmt:
+			if len(p.Lhs) == 1 && len(p.Rhs) == 1 {
+				if pid, ok := unparen(p.Lhs[0]).(*ast.Ident); ok && fr.info.ObjectOf(pid) == obj {
+					if v, ok := constInt(fr.info, p.Rhs[0]); ok && v == 1 {
+						switch p.Tok {
+						case token.ADD_ASSIGN:
+							dir = 1
+						case token.SUB_ASSIGN:
+							dir = -1
+						}
+					}
+				}
+			}
+		}
+		if dir == 0 {
+			return nil
+		}
+		return &c06Loop{key: e.pathKey(fr, id), obj: obj, asc: dir > 0, body: t.Body, cond: t.Cond, init: t.Init}
+	}
+	return nil
+}
+
+func isBlankIdent(x ast.Expr) bool { id, ok := x.(*ast.Ident); return ok && id.Name == "_" }
+
+// assignedIn: objects assigned in n, except those declared inside n.
+func c06AssignedIn(info *types.Info, n ast.Node) map[types.Object]bool {
+	out := map[types.Object]bool{}
+	declared := map[types.Object]bool{}
+	ast.Inspect(n, func(m ast.Node) bool {
+		switch t := m.(type) {
+		case *ast.AssignStmt:
+			for _, l := range t.Lhs {
+				if id, ok := unparen(l).(*ast.Ident); ok {
+					if t.Tok == token.DEFINE && info.Defs[id] != nil {
+						declared[info.Defs[id]] = true
+					} else if o := info.ObjectOf(id); o != nil {
+						out[o] = true
+					}
+				} else if o := rootObj(info, l); o != nil {
+					if _, isIdx := unparen(l).(*ast.IndexExpr); !isIdx {
+						if sel, ok := unparen(l).(*ast.SelectorExpr); ok {
+							if c := sel; c != nil {
+								// field store through an index (cell fields) does not change a variable
+								hasIdx := false
+								ast.Inspect(sel, func(k ast.Node) bool {
+									if _, ok := k.(*ast.IndexExpr); ok {
+										hasIdx = true
+									}
+									return true
+								})
+								if !hasIdx {
+									out[o] = true
+								}
+							}
+						}
+					}
+				}
+			}
+		case *ast.IncDecStmt:
+			if o := rootObj(info, t.X); o != nil {
+				out[o] = true
+			}
+		case *ast.ValueSpec:
+			for _, nme := range t.Names {
+				declared[info.Defs[nme]] = true
+			}
+		case *ast.RangeStmt:
+			for _, kx := range []ast.Expr{t.Key, t.Value} {
+				if id, ok := kx.(*ast.Ident); ok && info.Defs[id] != nil {
+					declared[info.Defs[id]] = true
+				}
+			}
+		}
+		return true
+	})
+	for o := range declared {
+		delete(out, o)
+	}
+	return out
+}
+
+// generic: after the init, the loop variable is any value on its side of the initial one.
+func (x *c06X) generic(st *c05State, lp *c06Loop) {
+	e := x.e
+	v := e.valOf(st, lp.key)
+	e.kill(st, lp.key)
+	nv := c05Top()
+	if lp.asc {
+		for s, k := range v.lo {
+			if s != lp.key {
+				nv.lo[s] = k
+			}
+		}
+	} else {
+		for s, k := range v.hi {
+			if s != lp.key {
+				nv.hi[s] = k
+			}
+		}
+	}
+	st.env[lp.key] = nv
+}
+
+// enter prepares the state of an arbitrary iteration of lp (body entry), or nil.
+func (x *c06X) enter(fr *c05Frame, lp *c06Loop, st *c05State) *c05State {
+	e := x.e
+	st = st.clone()
+	if lp.rng != nil {
+		e.bindRange(fr, st, lp.rng)
+		return st
+	}
+	e.transfer(fr, st, lp.init)
+	x.generic(st, lp)
+	return e.assume(fr, st, lp.cond, true)
+}
+
+// eraseRowLoop: for c := left; c <= right; c++ { X[R][c].erase(<pen bg>) }  (any equivalent header).
+func (x *c06X) eraseRowLoop(fr *c05Frame, s ast.Stmt, st *c05State) (c06Eff, bool) {
+	e := x.e
+	lp := x.loopShape(fr, s)
+	if lp == nil || !lp.asc || lp.rng != nil || len(lp.body.List) != 1 {
+		return c06Eff{}, false
+	}
+	es, ok := lp.body.List[0].(*ast.ExprStmt)
+	if !ok {
+		return c06Eff{}, false
+	}
+	call, ok := es.X.(*ast.CallExpr)
+	if !ok || len(call.Args) != 1 {
+		return c06Eff{}, false
+	}
+	fn := calleeOf(fr.info, call)
+	if fn == nil || repoName(fn) != "widgets/term.cell.erase" || !c06IsPenBackground(x.c, e, fr.fi, call.Args[0], x.bg, x.cur, 0) {
+		return c06Eff{}, false
+	}
+	sel, _ := call.Fun.(*ast.SelectorExpr)
+	if sel == nil {
+		return c06Eff{}, false
+	}
+	cix, ok := unparen(sel.X).(*ast.IndexExpr)
+	if !ok {
+		return c06Eff{}, false
+	}
+	rix, ok := unparen(cix.X).(*ast.IndexExpr)
+	if !ok || e.pathKey(fr, rix.X) != c05Active {
+		return c06Eff{}, false
+	}
+	if id, ok := unparen(cix.Index).(*ast.Ident); !ok || fr.info.ObjectOf(id) != lp.obj {
+		return c06Eff{}, false
+	}
+	// header: starts at the left margin, runs exactly while c <= right margin
+	s0 := st.clone()
+	e.transfer(fr, s0, lp.init)
+	first := c05Atom(lp.key).addScaled(c05Atom(c05Left), -1)
+	if !(e.prove(s0, first) && e.prove(s0, first.neg())) {
+		return c06Eff{}, false
+	}
+	x.generic(s0, lp)
+	in := e.assume(fr, s0.clone(), lp.cond, true)
+	out := e.assume(fr, s0, lp.cond, false)
+	le := c05Atom(lp.key).addScaled(c05Atom(c05Right), -1) // c - right <= 0
+	gt := le.neg()
+	gt.k += 1 // right + 1 - c <= 0
+	if in != nil && !e.prove(in, le) {
+		return c06Eff{}, false
+	}
+	if out != nil && !e.prove(out, gt) {
+		return c06Eff{}, false
+	}
+	return c06Eff{kind: "eraseRow", row: e.linOf(fr, st, rix.Index), pos: s.Pos()}, true
+}
+
+// resolve rewrites locals that are defined by an equality (c == col+i) in terms of their definition,
+// so that an effect's column is expressed through the loop variable keep.
+func (x *c06X) resolve(st *c05State, l c05Lin, keep string) c05Lin {
+	for round := 0; round < 3; round++ {
+		if l.t[keep] != 0 {
+			return l
+		}
+		changed := false
+		for a, c := range l.t {
+			if a == keep || c05IsGeo(a) || !strings.HasPrefix(a, "v") || strings.Contains(a, ".") {
+				continue
+			}
+			// equality facts  a - R == 0
+			for _, f := range st.facts {
+				if f.t[a] != 1 || f.t[keep] == 0 {
+					continue
+				}
+				neg := false
+				for _, g := range st.facts {
+					if g.key() == f.neg().key() {
+						neg = true
+					}
+				}
+				if !neg {
+					continue
+				}
+				rest := c05Atom(a).addScaled(f, -1) // a - f == R
+				l = l.addScaled(c05Atom(a), -c).addScaled(rest, c)
+				changed = true
+				break
+			}
+			if changed {
+				break
+			}
+			// exact alias bound  a == keep + k
+			if v, ok := st.env[a]; ok {
+				if lo, ok1 := v.lo[keep]; ok1 {
+					if hi, ok2 := v.hi[keep]; ok2 && lo == hi {
+						l = l.addScaled(c05Atom(a), -c).addScaled(c05Atom(keep), c)
+						l.k += c * lo
+						changed = true
+						break
+					}
+				}
+			}
+		}
+		if !changed {
+			break
+		}
+	}
+	return l
+}
+
+func (x *c06X) eq(st *c05State, l c05Lin) bool { return x.e.prove(st, l) && x.e.prove(st, l.neg()) }
+
+// ---------------------------------------------------------------- C06.f scroll contracts
+
+func c06Fields(c *Ctx, e *c05Eng) (bg, cur *types.Var) {
+	if root := c.P.Pkg("vaxis"); root != nil {
+		if tn, ok := root.Types.Scope().Lookup("Style").(*types.TypeName); ok {
+			if st, ok := tn.Type().Underlying().(*types.Struct); ok {
+				for i := 0; i < st.NumFields(); i++ {
+					if st.Field(i).Name() == "Background" {
+						bg = st.Field(i)
+					}
+				}
+			}
+		}
+	}
+	if mst, ok := e.model.Underlying().(*types.Struct); ok {
+		for i := 0; i < mst.NumFields(); i++ {
+			if mst.Field(i).Name() == "cursor" {
+				cur = mst.Field(i)
+			}
+		}
+	}
+	return
+}
+
+func c06RuleScroll(c *Ctx, e *c05Eng, tabs map[string]*c06Table) {
+	c.expect("C06.f", 4)
+	t := tabs["csi"]
+	if t == nil {
+		return
+	}
+	bg, cur := c06Fields(c, e)
+	for _, spec := range []struct {
+		key  string
+		name string
+		up   bool
+	}{{"S", "SU", true}, {"T", "SD", false}} {
+		en := t.entries[spec.key]
+		if en == nil || en.callee == nil {
+			continue // C06.b reports the missing entry
+		}
+		cf := en.callee
+		for _, big := range []bool{false, true} {
+			what := "fewer lines than the region holds"
+			if big {
+				what = "at least as many lines as the region holds"
+			}
+			key := fmt.Sprintf("%s/%s by %s: every row of the region receives the row n lines away or is erased", cf.Name, spec.name, what)
+			x := &c06X{c: c, e: e, bg: bg, cur: cur}
+			bad := c06ScrollCase(x, cf, spec.up, big)
+			switch {
+			case len(x.und) > 0:
+				c.undecided("C06.f", key, cf.Decl.Pos(), "the scroll function is not understood: %s", strings.Join(x.und, "; "))
+			case len(bad) > 0:
+				c.bad("C06.f", key, cf.Decl.Pos(), "%s: after the operation the region does not hold what a VT's holds", strings.Join(bad, "; "))
+			default:
+				c.ok("C06.f", key, cf.Decl.Pos(), "every row r of the region: copy of row r%sn when that row is inside the region, otherwise erased between the margins with the pen background; rows outside untouched", map[bool]string{true: "+", false: "-"}[spec.up])
+			}
+		}
+	}
+}
+
+// c06ScrollCase checks one scroll function under n0 <= bottom-top (big=false) or n0 >= bottom-top+1 (big=true).
+func c06ScrollCase(x *c06X, cf *FuncInfo, up, big bool) (bad []string) {
+	e := x.e
+	fr := e.newFrame(cf, true)
+	var params []types.Object
+	for _, f := range cf.Decl.Type.Params.List {
+		for _, nme := range f.Names {
+			params = append(params, fr.info.Defs[nme])
+		}
+	}
+	if len(params) != 1 || !e.isCountType(params[0].Type()) || fr.recv == nil {
+		x.undecided("expected a method with a single line count")
+		return
+	}
+	st := e.entryState(fr)
+	nk := fmt.Sprintf("v%p", params[0])
+	const n0 = "n@0"
+	e.disp[n0] = params[0].Name() + "@entry"
+	st.env[n0] = c05Top()
+	st.env[n0].addLo("", 0)
+	st.env[nk] = c05Exact(n0, 0)
+	st.env[nk].addLo("", 0)
+	st.env[n0].addLo(nk, 0)
+	st.env[n0].addHi(nk, 0)
+	pre := c05L(n0, 1, c05Bot, -1, c05Top_, 1) // n0 - (bottom-top) <= 0
+	if big {
+		pre = pre.neg()
+		pre.k += 1 // bottom-top+1 - n0 <= 0
+	}
+	if st = e.assumeLE0(st, pre); st == nil {
+		x.undecided("precondition unsatisfiable")
+		return
+	}
+	// prelude and the loop
+	list := cf.Decl.Body.List
+	li := -1
+	for i, s := range list {
+		switch s.(type) {
+		case *ast.ForStmt, *ast.RangeStmt:
+			li = i
+		}
+	}
+	if li < 0 {
+		x.undecided("no loop over the rows")
+		return
+	}
+	for _, s := range list[li+1:] {
+		if _, ok := s.(*ast.ReturnStmt); !ok {
+			x.undecided("statements after the row loop")
+			return
+		}
+	}
+	lp := x.loopShape(fr, list[li])
+	if lp == nil {
+		x.undecided("row loop header not recognised")
+		return
+	}
+	if lp.asc != up {
+		bad = append(bad, fmt.Sprintf("rows are visited %s, so a row is overwritten before it has been copied", map[bool]string{true: "top-down", false: "bottom-up"}[lp.asc]))
+	}
+	// nothing the contract speaks about may change inside the loop
+	assigned := c06AssignedIn(fr.info, lp.body)
+	if assigned[params[0]] || assigned[fr.recv] || assigned[lp.obj] {
+		x.undecided("the loop body assigns the count, the terminal's fields or the row variable")
+		return
+	}
+	dir := int64(1)
+	if !up {
+		dir = -1
+	}
+	for _, po := range x.execList(fr, list[:li], st, nil) {
+		if len(po.effs) > 0 {
+			x.undecided("grid effects before the row loop")
+			return
+		}
+		if po.kind == 3 {
+			// returning early is right only when there is nothing to do
+			if !e.prove(po.st, c05Atom(n0)) {
+				bad = append(bad, "returns before scrolling although the count may be positive")
+			}
+			continue
+		}
+		s0 := po.st
+		// enumeration: the loop visits every row of the region
+		if lp.rng != nil {
+			ll := e.lenLin(fr, s0, lp.rng.X)
+			need := c05Atom(c05Bot).addScaled(ll, -1)
+			need.k += 1
+			if !e.prove(s0, need) {
+				bad = append(bad, "the ranged slice may be shorter than the region")
+			}
+		} else {
+			si := s0.clone()
+			e.transfer(fr, si, lp.init)
+			start := c05Atom(lp.key).addScaled(c05Atom(c05Top_), -1) // v - top <= 0
+			if !up {
+				start = c05Atom(c05Bot).addScaled(c05Atom(lp.key), -1) // bottom - v <= 0
+			}
+			if !e.prove(si, start) {
+				bad = append(bad, "the loop does not start at the first row of the region")
+			}
+			x.generic(si, lp)
+			if so := e.assume(fr, si, lp.cond, false); so != nil {
+				stop := c05Atom(c05Bot).addScaled(c05Atom(lp.key), -1)
+				stop.k += 1 // bottom+1 - v <= 0
+				if !up {
+					stop = c05Atom(lp.key).addScaled(c05Atom(c05Top_), -1)
+					stop.k += 1 // v - top + 1 <= 0
+				}
+				if !e.prove(so, stop) {
+					bad = append(bad, "the loop can stop before the last row of the region")
+				}
+			}
+		}
+		body := x.enter(fr, lp, s0)
+		if body == nil {
+			continue
+		}
+		R := c05Atom(lp.key)
+		inTop := c05Atom(c05Top_).addScaled(R, -1) // top - R <= 0
+		inBot := R.addScaled(c05Atom(c05Bot), -1)  // R - bottom <= 0
+		regions := []struct {
+			name string
+			pre  []c05Lin
+			in   bool
+		}{
+			{"inside the region", []c05Lin{inTop, inBot}, true},
+			{"above the region", []c05Lin{func() c05Lin { l := inTop.neg(); l.k += 1; return l }()}, false},
+			{"below the region", []c05Lin{func() c05Lin { l := inBot.neg(); l.k += 1; return l }()}, false},
+		}
+		for _, rg := range regions {
+			sb := body.clone()
+			for _, p := range rg.pre {
+				if sb != nil {
+					sb = e.assumeLE0(sb, p)
+				}
+			}
+			if sb == nil {
+				continue
+			}
+			for _, o := range x.execList(fr, lp.body.List, sb, nil) {
+				if !rg.in {
+					if len(o.effs) > 0 {
+						bad = append(bad, "a row "+rg.name+" is modified")
+					}
+					continue
+				}
+				if o.kind == 2 || o.kind == 3 {
+					bad = append(bad, "the loop is left while rows of the region remain")
+					continue
+				}
+				if len(o.effs) != 1 {
+					bad = append(bad, fmt.Sprintf("a row of the region receives %d effects on some path (exactly one copy or erase expected)", len(o.effs)))
+					continue
+				}
+				ef := o.effs[0]
+				if !x.eq(o.st, ef.row.addScaled(R, -1)) {
+					bad = append(bad, "the row written is not the row visited")
+					continue
+				}
+				// inside: R + dir*n0 within [top,bottom]  <=>  copy
+				far := R.clone()
+				far = far.addScaled(c05Atom(n0), dir) // the source row index
+				var inside, outside c05Lin
+				if up {
+					inside = far.addScaled(c05Atom(c05Bot), -1) // R+n0 - bottom <= 0
+					outside = inside.neg()
+					outside.k += 1
+				} else {
+					inside = c05Atom(c05Top_).addScaled(far, -1) // top - (R-n0) <= 0
+					outside = inside.neg()
+					outside.k += 1
+				}
+				switch ef.kind {
+				case "copy":
+					if !x.eq(o.st, ef.src.addScaled(far, -1)) {
+						bad = append(bad, fmt.Sprintf("row r receives row %s, not the row n lines %s (n as passed)", e.showLin(ef.src), map[bool]string{true: "below", false: "above"}[up]))
+					} else if !e.prove(o.st, inside) {
+						bad = append(bad, "a row is copied from outside the region (it should be erased): with a count of at least the region's height some old line survives")
+					}
+				case "eraseRow":
+					if !e.prove(o.st, outside) {
+						bad = append(bad, "a row is erased although the row n lines away is inside the region")
+					}
+				default:
+					bad = append(bad, "unexpected effect "+ef.kind)
+				}
+			}
+		}
+	}
+	// dedupe
+	seen := map[string]bool{}
+	var out []string
+	for _, b := range bad {
+		if !seen[b] {
+			seen[b] = true
+			out = append(out, b)
+		}
+	}
+	return out
+}
+
+// ---------------------------------------------------------------- C06.g print blanks the columns a wide glyph covers
+
+// c06HasBlank: does n (or a package function it calls, one level) store a blank/style into a screen cell?
+func c06HasBlank(c *Ctx, e *c05Eng, fi *FuncInfo, n ast.Node, depth int) bool {
+	info := fi.Pkg.TypesInfo
+	fr := &c05Frame{fi: fi, pkg: fi.Pkg, info: info}
+	fr.recv = e.recvOf(fi)
+	fr.recvAt = fr.recv != nil
+	found := false
+	ast.Inspect(n, func(m ast.Node) bool {
+		switch t := m.(type) {
+		case *ast.AssignStmt:
+			for _, l := range t.Lhs {
+				if ix := c06GridCell(e, fr, l); ix != nil {
+					if sel, ok := unparen(l).(*ast.SelectorExpr); ok && (sel.Sel.Name == "Grapheme" || sel.Sel.Name == "Style") {
+						found = true
+					} else if _, isLit := unparen(t.Rhs[0]).(*ast.CompositeLit); isLit && len(t.Rhs) == 1 {
+						found = true
+					}
+				}
+			}
+		case *ast.CallExpr:
+			if depth < 2 {
+				if fn := calleeOf(info, t); fn != nil {
+					if cf := c.P.FuncOfObj(fn); cf != nil && cf.Pkg == e.pk && cf.Decl.Body != nil && cf != fi && e.recvOf(cf) != nil {
+						if c06HasBlank(c, e, cf, cf.Decl.Body, depth+1) {
+							found = true
+						}
+					}
+				}
+			}
+		}
+		return !found
+	})
+	return found
+}
+
+func c06RulePrint(c *Ctx, e *c05Eng) {
+	c.expect("C06.g", 2)
+	// the print function: the method of Model that takes an ansi.Print
+	var fi *FuncInfo
+	var seqObj types.Object
+	for _, f := range c.P.FuncsIn("widgets/term") {
+		if f.Decl.Body == nil || e.recvOf(f) == nil || f.Decl.Recv == nil {
+			continue
+		}
+		for _, fl := range f.Decl.Type.Params.List {
+			for _, nme := range fl.Names {
+				if o := f.Pkg.TypesInfo.Defs[nme]; o != nil && typeName(o.Type()) == modPath+"/ansi.Print" {
+					if fi != nil && fi != f {
+						c.undecided("C06.g", "widgets/term/print function", f.Decl.Pos(), "more than one method takes an ansi.Print")
+						return
+					}
+					fi, seqObj = f, o
+				}
+			}
+		}
+	}
+	if fi == nil {
+		c.undecided("C06.g", "widgets/term/print function", 0, "no method of Model takes an ansi.Print")
+		return
+	}
+	info := fi.Pkg.TypesInfo
+	base := fi.Name + "/wide glyph"
+	tfr := e.newFrame(fi, true)
+	// the glyph store: the top-level statement X[rw][col] = <cell value>
+	storeIdx := -1
+	var store *ast.AssignStmt
+	for i, st := range fi.Decl.Body.List {
+		as, ok := st.(*ast.AssignStmt)
+		if !ok || len(as.Lhs) != 1 || len(as.Rhs) != 1 || as.Tok != token.ASSIGN {
+			continue
+		}
+		ix, ok := unparen(as.Lhs[0]).(*ast.IndexExpr)
+		if !ok || !e.isRow(info.TypeOf(ix.X)) {
+			continue
+		}
+		if rix, ok := unparen(ix.X).(*ast.IndexExpr); !ok || e.pathKey(tfr, rix.X) != c05Active {
+			continue
+		}
+		if _, isCopy := unparen(as.Rhs[0]).(*ast.IndexExpr); isCopy {
+			continue
+		}
+		if store != nil {
+			c.undecided("C06.g", base+": the glyph cell is stored", as.Pos(), "more than one whole-cell store into the active screen at the top level of %s", fi.Name)
+			return
+		}
+		store, storeIdx = as, i
+	}
+	if store == nil {
+		c.undecided("C06.g", base+": the glyph cell is stored", fi.Decl.Pos(), "no top-level statement of %s stores a cell into the active screen", fi.Name)
+		return
+	}
+	cix := unparen(store.Lhs[0]).(*ast.IndexExpr)
+	rix := unparen(cix.X).(*ast.IndexExpr)
+	// the stored cell carries the sequence's grapheme and width, and the pen's style
+	var lit *ast.CompositeLit
+	switch r := unparen(store.Rhs[0]).(type) {
+	case *ast.CompositeLit:
+		lit = r
+	case *ast.Ident:
+		obj := info.ObjectOf(r)
+		n := 0
+		ast.Inspect(fi.Decl.Body, func(m ast.Node) bool {
+			if as, ok := m.(*ast.AssignStmt); ok {
+				for i, l := range as.Lhs {
+					if id, ok := l.(*ast.Ident); ok && info.ObjectOf(id) == obj && i < len(as.Rhs) {
+						n++
+						lit, _ = unparen(as.Rhs[i]).(*ast.CompositeLit)
+					}
+				}
+			}
+			return true
+		})
+		if n != 1 {
+			lit = nil
+		}
+	}
+	var widthExpr ast.Expr
+	okG, okS := false, false
+	if lit != nil {
+		ast.Inspect(lit, func(m ast.Node) bool {
+			if kv, ok := m.(*ast.KeyValueExpr); ok {
+				if id, ok := kv.Key.(*ast.Ident); ok {
+					switch id.Name {
+					case "Width":
+						widthExpr = kv.Value
+					case "Grapheme":
+						if sel, ok := unparen(kv.Value).(*ast.SelectorExpr); ok && rootObj(info, sel) == seqObj && sel.Sel.Name == "Grapheme" {
+							okG = true
+						}
+					case "Style":
+						if sel, ok := unparen(kv.Value).(*ast.SelectorExpr); ok && rootObj(info, sel) == tfr.recv && sel.Sel.Name == "Style" {
+							okS = true
+						}
+					}
+				}
+			}
+			return true
+		})
+	}
+	if lit == nil || widthExpr == nil {
+		c.undecided("C06.g", base+": the glyph cell is stored", store.Pos(), "the stored cell is not a composite literal with a Width (directly or through a local with a single definition)")
+		return
+	}
+	c.check(okG && okS, "C06.g", base+": the glyph cell is stored", store.Pos(), "the cell at the cursor takes the sequence's grapheme and width and the pen's style",
+		"the cell stored at the cursor does not take the sequence's grapheme and the pen's style")
+	// nothing the contract mentions may be assigned between the store and the end of the function
+	assigned := c06AssignedIn(info, &ast.BlockStmt{List: fi.Decl.Body.List[storeIdx+1:]})
+	for _, ex := range []ast.Expr{cix.Index, rix.Index, widthExpr} {
+		for o := range objsIn(info, ex) {
+			if assigned[o] {
+				// assignments inside the blanking section to these would invalidate the symbols
+				c.undecided("C06.g", base+": trailing columns", store.Pos(), "%s is reassigned after the glyph store", o.Name())
+				return
+			}
+		}
+	}
+	// section: the statements after the store up to the last one that blanks cells
+	last := -1
+	for i := storeIdx + 1; i < len(fi.Decl.Body.List); i++ {
+		if c06HasBlank(c, e, fi, fi.Decl.Body.List[i], 0) {
+			last = i
+		}
+	}
+	key := base + ": the columns it covers are blanked in the pen's style"
+	if last < 0 {
+		c.bad("C06.g", key, store.Pos(), "after storing a glyph of width w, %s blanks none of the columns col+1 .. col+w-1 it covers: old text and background stay in the second half of a wide glyph and show when it is exposed", fi.Name)
+		return
+	}
+	section := fi.Decl.Body.List[storeIdx+1 : last+1]
+	// engine state at the store
+	var at *c05State
+	var afr *c05Frame
+	e.hooks = []c05Hook{func(e *c05Eng, fr *c05Frame, n ast.Node, st *c05State) {
+		if n == ast.Node(store) && st != nil && st.env != nil {
+			at = st.clone()
+			afr = fr
+		}
+	}}
+	e.analyse(fi, nil)
+	e.hooks = nil
+	if at == nil {
+		c.undecided("C06.g", key, store.Pos(), "the glyph store is not reachable in the engine")
+		return
+	}
+	e.transfer(afr, at, store)
+	bg, cur := c06Fields(c, e)
+	type cse struct {
+		name string
+		mode int // 0: narrow, 1: fits, 2: cut by the margin
+	}
+	for _, cs := range []cse{{"narrow glyph (w <= 1): nothing else is touched", 0}, {"wide glyph inside the margin: columns col+1 .. col+w-1", 1}, {"wide glyph cut by the right margin: columns col+1 .. margin", 2}} {
+		x := &c06X{c: c, e: e, bg: bg, cur: cur}
+		st := at.clone()
+		B := e.linOf(afr, st, cix.Index)
+		RW := e.linOf(afr, st, rix.Index)
+		W := e.linOf(afr, st, widthExpr)
+		lastCol := B.addScaled(W, 1)
+		lastCol.k -= 1 // B+W-1
+		switch cs.mode {
+		case 0:
+			l := W.clone()
+			l.k -= 1
+			st = e.assumeLE0(st, l)
+		case 1:
+			l := W.neg()
+			l.k += 2
+			st = e.assumeLE0(st, l)
+			if st != nil {
+				st = e.assumeLE0(st, lastCol.addScaled(c05Atom(c05Right), -1))
+			}
+		case 2:
+			l := W.neg()
+			l.k += 2
+			st = e.assumeLE0(st, l)
+			if st != nil {
+				g := c05Atom(c05Right).addScaled(lastCol, -1)
+				g.k += 1 // right+1 - (B+W-1) <= 0
+				st = e.assumeLE0(st, g)
+			}
+		}
+		ckey := key + ": " + cs.name
+		if st == nil {
+			c.okTrivial("C06.g", ckey, store.Pos(), "case cannot occur at the glyph store")
+			continue
+		}
+		var bad []string
+		loops := 0
+		x.loopHook = func(fr *c05Frame, s ast.Stmt, s0 *c05State, effs []c06Eff) ([]c06Out, bool) {
+			if !c06HasBlank(c, e, fr.fi, s, 2) {
+				return nil, false
+			}
+			loops++
+			bad = append(bad, c06BlankLoop(x, fr, s, s0, B, RW, lastCol, cs.mode)...)
+			// continue after the loop with the loop variable forgotten
+			out := s0.clone()
+			if lp := x.loopShape(fr, s); lp != nil {
+				e.kill(out, lp.key)
+			}
+			return []c06Out{{kind: 0, st: out, effs: effs}}, true
+		}
+		outs := x.execList(afr, section, st, nil)
+		for _, o := range outs {
+			if len(o.effs) > 0 {
+				x.undecided("cells are blanked outside a loop")
+			}
+		}
+		if loops == 0 && len(x.und) == 0 {
+			x.undecided("no loop blanks the covered columns")
+		}
+		switch {
+		case len(x.und) > 0:
+			c.undecided("C06.g", ckey, store.Pos(), "the blanking of the covered columns is not understood: %s", strings.Join(x.und, "; "))
+		case len(bad) > 0:
+			c.bad("C06.g", ckey, store.Pos(), "%s: a stale cell stays under (or a foreign cell is blanked next to) the wide glyph", strings.Join(bad, "; "))
+		default:
+			c.ok("C06.g", ckey, store.Pos(), "starts at col+1, advances by one, writes blank and pen style on the glyph's row, and stops exactly after min(col+w-1, right margin)")
+		}
+	}
+}
+
+// c06BlankLoop checks one blanking loop against the coverage [B+1, min(lastCol, right)] on row RW.
+func c06BlankLoop(x *c06X, fr *c05Frame, s ast.Stmt, s0 *c05State, B, RW, lastCol c05Lin, mode int) (bad []string) {
+	e := x.e
+	lp := x.loopShape(fr, s)
+	if lp == nil || !lp.asc {
+		x.undecided("blanking loop header at %s not recognised (ascending counting loop expected)", x.c.P.Pos(s.Pos()))
+		return
+	}
+	if as := c06AssignedIn(fr.info, lp.body); len(as) > 0 {
+		for o := range as {
+			x.undecided("the blanking loop assigns %s", o.Name())
+		}
+		return
+	}
+	hook := x.loopHook
+	x.loopHook = nil
+	defer func() { x.loopHook = hook }()
+	v := c05Atom(lp.key)
+	right := c05Atom(c05Right)
+	// required end of the coverage in this case
+	end := lastCol
+	if mode == 2 {
+		end = right
+	}
+	pastEnd := func(st *c05State, ev c05Lin) bool { // ev >= end+1
+		l := end.addScaled(ev, -1)
+		l.k += 1
+		return e.prove(st, l)
+	}
+	checkEffs := func(o c06Out, first bool) (c05Lin, bool) {
+		var col c05Lin
+		g, sty := false, false
+		for i, ef := range o.effs {
+			ef.col = x.resolve(o.st, ef.col, lp.key)
+			if ef.kind != "blankG" && ef.kind != "blankS" {
+				bad = append(bad, "unexpected effect "+ef.kind+" in the blanking loop")
+				return col, false
+			}
+			if i == 0 {
+				col = ef.col
+			} else if !x.eq(o.st, ef.col.addScaled(col, -1)) {
+				bad = append(bad, "grapheme and style are written to different columns")
+				return col, false
+			}
+			if !x.eq(o.st, ef.row.addScaled(RW, -1)) {
+				bad = append(bad, "a cell of another row is blanked")
+				return col, false
+			}
+			if ef.kind == "blankG" {
+				g = true
+			} else {
+				sty = true
+			}
+		}
+		if !g || !sty {
+			bad = append(bad, "a covered column does not get both the blank and the pen's style")
+			return col, false
+		}
+		return col, true
+	}
+	// first iteration
+	var first *c05State
+	if lp.rng != nil {
+		first = s0.clone()
+		e.bindRange(fr, first, lp.rng)
+		first = e.assumeLE0(first, v) // v <= 0 : the first value
+	} else {
+		first = s0.clone()
+		e.transfer(fr, first, lp.init)
+		first = e.assume(fr, first, lp.cond, true)
+	}
+	emptyOK := func(st *c05State) bool { // nothing to cover: B+1 > end
+		l := end.addScaled(B, -1) // end - B <= 0
+		return e.prove(st, l)
+	}
+	var off *c05Lin // column written minus loop variable
+	if first == nil {
+		if mode != 0 {
+			s1 := s0.clone()
+			if lp.init != nil {
+				e.transfer(fr, s1, lp.init)
+			}
+			if !emptyOK(s1) {
+				bad = append(bad, "the loop body is never entered although columns are covered")
+			}
+		}
+	} else {
+		for _, o := range x.execList(fr, lp.body.List, first, nil) {
+			if mode == 0 {
+				if len(o.effs) > 0 {
+					bad = append(bad, "a column is blanked for a glyph of width <= 1")
+				}
+				continue
+			}
+			if len(o.effs) == 0 {
+				if o.kind == 2 || o.kind == 3 {
+					if !emptyOK(o.st) {
+						bad = append(bad, "the loop is left at its first step although col+1 is covered")
+					}
+				} else {
+					bad = append(bad, "the first covered column (col+1) is skipped")
+				}
+				continue
+			}
+			col, ok := checkEffs(o, true)
+			if !ok {
+				continue
+			}
+			b1 := B.clone()
+			b1.k += 1
+			if !x.eq(o.st, col.addScaled(b1, -1)) {
+				bad = append(bad, fmt.Sprintf("the first column blanked is %s, not col+1", e.showLin(col)))
+			}
+		}
+	}
+	if mode == 0 {
+		return
+	}
+	// an arbitrary iteration
+	var gen *c05State
+	if lp.rng != nil {
+		gen = s0.clone()
+		e.bindRange(fr, gen, lp.rng)
+	} else {
+		gen = s0.clone()
+		e.transfer(fr, gen, lp.init)
+		x.generic(gen, lp)
+	}
+	var in, out *c05State
+	if lp.rng != nil {
+		in = gen
+	} else {
+		in = e.assume(fr, gen.clone(), lp.cond, true)
+		out = e.assume(fr, gen, lp.cond, false)
+	}
+	if in != nil {
+		outs := x.execList(fr, lp.body.List, in, nil)
+		var exits []c06Out
+		for _, o := range outs {
+			if len(o.effs) == 0 {
+				if o.kind == 2 || o.kind == 3 {
+					exits = append(exits, o)
+				} else if o.kind == 0 || o.kind == 1 {
+					bad = append(bad, "a step of the loop writes nothing: a covered column can be skipped")
+				}
+				continue
+			}
+			col, ok := checkEffs(o, false)
+			if !ok {
+				continue
+			}
+			if col.t[lp.key] != 1 {
+				bad = append(bad, "the column written does not advance by one per step")
+				continue
+			}
+			d := col.addScaled(v, -1)
+			if off != nil && !x.eq(o.st, d.addScaled(*off, -1)) {
+				bad = append(bad, "the column written is not the same function of the loop variable in every step")
+			}
+			if off == nil {
+				off = &d
+			}
+			// inside the coverage
+			if !e.prove(o.st, col.addScaled(end, -1)) {
+				bad = append(bad, fmt.Sprintf("column %s can lie beyond the last covered column", e.showLin(col)))
+			}
+			lo := B.addScaled(col, -1)
+			lo.k += 1 // B+1 - col <= 0
+			if !e.prove(o.st, lo) {
+				bad = append(bad, fmt.Sprintf("column %s can lie before col+1", e.showLin(col)))
+			}
+		}
+		for _, o := range exits {
+			if off != nil && !pastEnd(o.st, v.addScaled(*off, 1)) {
+				bad = append(bad, "the loop can be left before the last covered column")
+			}
+		}
+	}
+	if lp.rng != nil {
+		// the range ends after its last value: v == len-1 there; treat the exit as v+1 >= bound
+		ex := s0.clone()
+		n := e.linOf(fr, ex, lp.rng.X)
+		if !isIntegerExpr(fr.info, lp.rng.X) {
+			n = e.lenLin(fr, ex, lp.rng.X)
+		}
+		if off != nil {
+			// first column not written: n + off
+			if !pastEnd(ex, n.addScaled(*off, 1)) {
+				bad = append(bad, "the loop ends before the last covered column")
+			}
+		}
+	} else if out != nil && off != nil {
+		if !pastEnd(out, v.addScaled(*off, 1)) {
+			bad = append(bad, "the loop ends before the last covered column (the right margin is the last column, inclusive)")
+		}
+	}
+	if off == nil && len(bad) == 0 {
+		bad = append(bad, "no step of the loop blanks a cell")
+	}
+	seen := map[string]bool{}
+	var outb []string
+	for _, b := range bad {
+		if !seen[b] {
+			seen[b] = true
+			outb = append(outb, b)
+		}
+	}
+	return outb
 }
